@@ -324,3 +324,106 @@ func init() {
 		return a[1]
 	}
 }
+
+// JSON leaves (the HTTP backends' payload encoders are reflection based):
+//
+//   encoding/json.Marshal(v)                     returns an 8-byte handle "JS#nnnnn", never fails
+//   jsoniter.Config.Froze()                      an inert API object
+//   api.BorrowStream(w) / stream.WriteVal(v) / stream.Flush() / api.ReturnStream(stream)
+//                                                Flush writes the handle of the value to w
+//
+// The encoded text is not the subject of any claimed property; what matters is that a body is
+// produced, is distinct per value, and goes through the real request/retry code.
+func init() {
+	externals["encoding/json.Marshal"] = func(fr *frame, a []value) value {
+		fr.i.protoSeq++
+		return tuple{strBytes(fmt.Sprintf("JS#%05d", fr.i.protoSeq)), iface{}}
+	}
+	const jp = "github.com/json-iterator/go"
+	jsonType := func(fr *frame, name string) types.Type {
+		pkg := fr.i.prog.ImportedPackage(jp)
+		if pkg == nil || pkg.Type(name) == nil {
+			fr.i.ctx.end("UNSUPPORTED", "jsoniter type %s not loaded", name)
+		}
+		return pkg.Type(name).Type()
+	}
+	externals["("+jp+".Config).Froze"] = func(fr *frame, a []value) value {
+		t := jsonType(fr, "frozenConfig")
+		cell := zero(t)
+		return iface{t: types.NewPointer(t), v: &cell}
+	}
+	externals["(*"+jp+".frozenConfig).BorrowStream"] = func(fr *frame, a []value) value {
+		cell := zero(jsonType(fr, "Stream"))
+		p := &cell
+		if fr.i.jsonStreams == nil {
+			fr.i.jsonStreams = map[*value]*jsonStream{}
+		}
+		fr.i.jsonStreams[p] = &jsonStream{w: a[1]}
+		return p
+	}
+	externals["(*"+jp+".frozenConfig).ReturnStream"] = nop
+	externals["(*"+jp+".Stream).WriteVal"] = func(fr *frame, a []value) value {
+		if st := fr.i.jsonStreams[a[0].(*value)]; st != nil {
+			st.vals++
+		}
+		return nil
+	}
+	externals["(*"+jp+".Stream).Flush"] = func(fr *frame, a []value) value {
+		st := fr.i.jsonStreams[a[0].(*value)]
+		if st == nil {
+			fr.i.ctx.end("UNSUPPORTED", "jsoniter stream not from BorrowStream")
+		}
+		fr.i.protoSeq++
+		fr.writeTo(st.w, strBytes(fmt.Sprintf("JS#%05d", fr.i.protoSeq)))
+		return iface{}
+	}
+}
+
+type jsonStream struct {
+	w    value
+	vals int
+}
+
+// errors.As without reflection: walks the Unwrap chain; a link matches when its dynamic type
+// is identical to the target's element type (or implements it when that is an interface).
+// `As(any) bool` methods and multi-error Unwrap() []error are not consulted.
+func init() {
+	externals["errors.As"] = func(fr *frame, a []value) value {
+		i := fr.i
+		tgt, _ := a[1].(iface)
+		if tgt.t == nil {
+			i.ctx.runtimeError(fr, "errors: target cannot be nil")
+		}
+		pt, ok := tgt.t.Underlying().(*types.Pointer)
+		if !ok {
+			i.ctx.runtimeError(fr, "errors: target must be a non-nil pointer")
+		}
+		want := pt.Elem()
+		cur, _ := a[0].(iface)
+		for depth := 0; cur.t != nil && depth < 16; depth++ {
+			match := types.Identical(cur.t, want)
+			if it, isI := want.Underlying().(*types.Interface); isI && !match {
+				match = types.Implements(cur.t, it)
+			}
+			if match {
+				cell := tgt.v.(*value)
+				if _, isI := want.Underlying().(*types.Interface); isI {
+					*cell = cur
+				} else {
+					*cell = cur.v
+				}
+				return true
+			}
+			m := i.safeLookup(cur.t, "Unwrap")
+			if m == nil || m.Signature.Results().Len() != 1 {
+				return false
+			}
+			if _, isI := m.Signature.Results().At(0).Type().Underlying().(*types.Interface); !isI {
+				return false
+			}
+			next, _ := call(i, fr, token.NoPos, m, []value{cur.v}).(iface)
+			cur = next
+		}
+		return false
+	}
+}
